@@ -44,7 +44,9 @@ Messages ==
       cl \in {"own", "other"}, pr \in BOOLEAN, li \in {"here", "elsewhere", "elsewhere-used"}}
 
 Sensible(m) == /\ (HasUsers(m.cfg) <=> m.uk # "-")
-               /\ (~HasServerKey(m.cfg) => m.sk \in {"right", "none"})      \* vmess: "right" = n/a, "none" = garbage
+               \* vmess: "right" = n/a, "none" = garbage, "shape" = a command key that is no user's: sixteen zero bytes, the key a
+               \* server would hold for a user entry whose id it could not read (such an entry must not start, let alone serve)
+               /\ (~HasServerKey(m.cfg) => m.sk \in {"right", "none", "shape"})
                /\ (m.sk \in {"none", "shape"} => m.uk \in {"-", "X"})
                /\ (m.uk = "S" => (m.cfg \in {"ss-multi", "ss-udp-multi"} /\ m.sk = "right"))
                /\ (m.claim = "other" => (m.cfg \in {"ss-multi", "ss-udp-multi"} /\ m.uk \in Registered /\ m.sk = "right" /\ m.form = "whole"))
